@@ -70,26 +70,42 @@ def manifest():
 NA_REASONS = {}
 
 
-def write_manifest():
+def write_manifest(only=None):
+    """Regenerate MANIFEST.json; `only` restricts the claimed set (ids) — used while engines are in progress."""
+    global CHECKS
+    if only is not None:
+        CHECKS = {k: v for k, v in CHECKS.items() if k in only}
     with open(os.path.join(core.VERIF, "MANIFEST.json"), "w") as f:
         json.dump(manifest(), f, indent=1)
         f.write("\n")
 
 
 def setup():
-    """Build everything from files on disk only (offline)."""
+    """Build everything the CLAIMED checks need, from files on disk only (offline).
+    Work-in-progress engines that are not claimed yet are not built here."""
     rc = 0
     try:
-        core.log("[setup] coq full build")
-        p = core.coq_make([])
+        # the committed MANIFEST.json is the source of truth for what is claimed
+        mf = os.path.join(core.VERIF, "MANIFEST.json")
+        props = [c["property_id"] for c in json.load(open(mf))["checks"]] if os.path.exists(mf) else claimed()
+        engines = [e for e in ENGINES if set(e.get("serves_properties", [])) & set(props)]
+        targets = []
+        for p in props:
+            targets += ["Props_%s.vo" % p, "Pins_%s.vo" % p]
+        targets += ["Extract_%s.vo" % e["name"] for e in engines if os.path.exists(os.path.join(core.COQ, "Extract_%s.v" % e["name"]))]
+        core.log("[setup] coq build: " + " ".join(targets))
+        p = core.coq_make(targets)
         if p.returncode != 0:
             core.log((p.stdout + p.stderr)[-4000:])
             rc = 1
-        for e in ENGINES:
-            core.log("[setup] model " + e["name"])
-            core.build_model(e["name"])
-        core.log("[setup] harness + fclones (hooks on)")
-        core.build_harness()
+        for e in engines:
+            if os.path.exists(os.path.join(core.COQ, "Extract_%s.v" % e["name"])):
+                core.log("[setup] model " + e["name"])
+                core.build_model(e["name"])
+        bins = sorted({b for e in engines for b in e.get("harness_bins", [])})
+        core.log("[setup] harness bins %s + fclones (hooks on)" % bins)
+        if bins:
+            core.build_harness(bins)
         core.build_fclones()
         if os.path.exists(os.path.join(core.VERIF, "shim", "fsshim.c")):
             core.build_shim()
